@@ -41,6 +41,14 @@ def check(run):
         drivers.check_drivers(run, F, rules=('DRV.len', 'DRV.early', 'SEQ.len', 'DRV.args', 'DRV.iter',
                                              'DRV.cover'))
         if cfg == 'base':
+            # "no panic": inside the kernels every unwrap of an element is dominated by its null test
+            # (an `IsNone::unwrap` of a None aborts the whole call: no output at all)
+            import nullrules as _N
+            import C08 as _C08
+            run.rule('NULL.unwrap', _N.RULES['NULL.unwrap'])
+            nu_ = _N.check_unwrap(run, F, tuple(f for f in _C08.FILES if f.startswith('tea-rolling/')),
+                                  _C08.AUDITED_UNWRAP)
+            run.floor('NULL.unwrap', 'IsNone::unwrap sites in the rolling kernels', nu_, 60)
             # past the count gate the statistic is defined: a variance floor that tests something other
             # than the variance sends a defined window to sqrt of a non-positive number (NaN = null)
             import casrules
